@@ -62,7 +62,9 @@ func reqID(ctx context.Context) int {
 	return id
 }
 
-var ErrInjected = errors.New("simstore: injected storage failure")
+// ErrInjected is the plain error of the "error" fault. Its text is what real error texts are like: it contains
+// characters that are special somewhere on the way to the client (percent signs, an escaped DSN, quotes, ampersands).
+var ErrInjected = errors.New(`simstore: injected storage failure (disk 100% full; dsn=user:p%40ss@db/x?a=1&b=2; 5%% "quoted" <tag>)`)
 
 // ---- domain objects ----
 
@@ -278,6 +280,7 @@ func (p publicKey) Key() any { return p.k.Pub }
 type ExchangePolicy struct {
 	DefaultType   oidc.TokenType // requested type when the request leaves it empty
 	Veto          bool           // refuse every exchange
+	ActChain      bool           // the policy records the delegation as a nested act claim {sub: actor, act: {sub: "previous-actor"}}
 	VetoError     string         // how it says no: "" = an OAuth error, "plain" = some error, "canceled" = an error wrapping context.Canceled
 	VetoAt        string         // which callback says no: "" = ValidateTokenExchangeRequest, "create", "claims", "userinfo"
 	ImpersonateAs string         // non-empty: SetSubject to this user
@@ -303,6 +306,7 @@ type Store struct {
 	AccessLifetime  time.Duration
 	RefreshLifetime time.Duration
 	Policy          ExchangePolicy
+	TypedNil        bool // a failing call returns a nil pointer of its concrete type next to the error, not an untyped nil
 	PresetSubject   bool // CreateAuthRequest stores the hinted user as subject before any login (as the example storage does)
 	PersistScopes   bool // SetCurrentScopes of a refresh request writes through to the stored grant (as the example storage does)
 	scopeMu         sync.Mutex
@@ -457,6 +461,9 @@ func (e notFound) IsNotFound()   {}
 
 func (s *Store) CreateAuthRequest(ctx context.Context, r *oidc.AuthRequest, userID string) (op.AuthRequest, error) {
 	if f, _ := s.enter(ctx, "CreateAuthRequest", r.ClientID, r.RedirectURI); f != "" {
+		if s.TypedNil {
+			return (*AuthReq)(nil), s.faultErr(ctx, f) // a nil pointer of the concrete type next to the error (var x *T; ...; return x, err)
+		}
 		return nil, s.faultErr(ctx, f)
 	}
 	s.mu.Lock()
@@ -488,6 +495,9 @@ func (s *Store) wrapAR(a *AuthReq) op.AuthRequest {
 
 func (s *Store) AuthRequestByID(ctx context.Context, id string) (op.AuthRequest, error) {
 	if f, _ := s.enter(ctx, "AuthRequestByID", id); f != "" {
+		if s.TypedNil {
+			return (*AuthReq)(nil), s.faultErr(ctx, f) // a nil pointer of the concrete type next to the error (var x *T; ...; return x, err)
+		}
 		return nil, s.faultErr(ctx, f)
 	}
 	s.mu.Lock()
@@ -501,6 +511,9 @@ func (s *Store) AuthRequestByID(ctx context.Context, id string) (op.AuthRequest,
 
 func (s *Store) AuthRequestByCode(ctx context.Context, code string) (op.AuthRequest, error) {
 	if f, _ := s.enter(ctx, "AuthRequestByCode", code); f != "" {
+		if s.TypedNil {
+			return (*AuthReq)(nil), s.faultErr(ctx, f) // a nil pointer of the concrete type next to the error (var x *T; ...; return x, err)
+		}
 		return nil, s.faultErr(ctx, f)
 	}
 	s.mu.Lock()
@@ -630,6 +643,9 @@ func (s *Store) liveRefresh(token string) *Refresh {
 
 func (s *Store) TokenRequestByRefreshToken(ctx context.Context, token string) (op.RefreshTokenRequest, error) {
 	if f, _ := s.enter(ctx, "TokenRequestByRefreshToken", token); f != "" {
+		if s.TypedNil {
+			return (*refreshReq)(nil), s.faultErr(ctx, f) // a nil pointer of the concrete type next to the error (var x *T; ...; return x, err)
+		}
 		return nil, s.faultErr(ctx, f)
 	}
 	s.mu.Lock()
@@ -746,6 +762,9 @@ func (s *Store) clientFor(id string) op.Client {
 
 func (s *Store) GetClientByClientID(ctx context.Context, id string) (op.Client, error) {
 	if f, _ := s.enter(ctx, "GetClientByClientID", id); f != "" {
+		if s.TypedNil {
+			return (*Client)(nil), s.faultErr(ctx, f) // a nil pointer of the concrete type next to the error (var x *T; ...; return x, err)
+		}
 		return nil, s.faultErr(ctx, f)
 	}
 	s.mu.Lock()
